@@ -17,6 +17,8 @@ import ast
 from . import astutil as A
 from .srcmodel import AnalysisError, FuncInfo, norm, walk_function
 
+CONST_STR_METHODS = {'isalnum', 'isalpha', 'isdigit', 'isdecimal', 'isnumeric', 'isspace', 'isupper', 'islower',
+                     'isascii', 'isprintable', 'isidentifier', 'lower', 'upper', 'startswith', 'endswith', 'strip'}
 UNK = ('unk',)
 POS = ('pos',)          # an int >= 1
 
@@ -105,6 +107,8 @@ class Interp:
             return out
         if isinstance(e, ast.Attribute):
             return [(UNK, st)]
+        if isinstance(e, (ast.Tuple, ast.List)) and all(isinstance(x, ast.Constant) for x in e.elts):
+            return [(C(tuple(x.value for x in e.elts)), st)]
         if isinstance(e, (ast.Tuple, ast.List)):
             # evaluate elements for their effects
             states = [st]
@@ -138,6 +142,8 @@ class Interp:
                     return C(l[1] + r[1])
                 if isinstance(op, ast.Sub):
                     return C(l[1] - r[1])
+                if isinstance(op, ast.Mult):
+                    return C(l[1] * r[1])
             except Exception:
                 return UNK
         if isinstance(op, ast.Add):
@@ -293,11 +299,42 @@ class Interp:
                         s.moved = True
                     out.append((C(None), s))
                 return out
-            found = self.repo.lookup(self.cls, name)
+            found = self.repo.lookup(self.cls, name) if self.cls is not None else None
             if found is not None and isinstance(found[1], FuncInfo):
                 return self.inline(found[1], e, st, depth)
             # evaluate arguments for effects
             return self.args_then_unknown(e, st, depth)
+        if isinstance(fn, ast.Attribute) and fn.attr in CONST_STR_METHODS:
+            # a pure str method on constant receiver/arguments is evaluated
+            out = []
+            for rv, s1 in self.ev(fn.value, st, depth):
+                alts = [([], s1)]
+                for a in e.args:
+                    nxt = []
+                    for vals, s2 in alts:
+                        for v, s3 in self.ev(a, s2, depth):
+                            nxt.append((vals + [v], s3))
+                    alts = nxt
+                for vals, s2 in alts:
+                    if is_const(rv) and isinstance(rv[1], str) and all(is_const(v) for v in vals) and not e.keywords:
+                        try:
+                            out.append((C(getattr(rv[1], fn.attr)(*[v[1] for v in vals])), s2))
+                            continue
+                        except Exception:
+                            pass
+                    out.append((UNK, s2))
+            return out
+        if isinstance(fn, ast.Name) and fn.id in ('len', 'ord') and len(e.args) == 1:
+            out = []
+            for v, s in self.ev(e.args[0], st, depth):
+                if is_const(v) and isinstance(v[1], str):
+                    try:
+                        out.append((C(len(v[1]) if fn.id == 'len' else ord(v[1])), s))
+                        continue
+                    except Exception:
+                        pass
+                out.append((UNK, s))
+            return out
         return self.args_then_unknown(e, st, depth, havoc_moved=False)
 
     def args_then_unknown(self, e, st, depth, havoc_moved=False):
@@ -754,3 +791,20 @@ def check_loop(repo, cls, func, loop, chars):
         if outcomes:
             spins.append((ch, outcomes[0]))
     return spins
+
+
+def eval_cond(repo, expr, env, cls=None):
+    """three-valued value of a condition under an environment of constants: True / False / None."""
+    it = Interp(repo, cls, '\uffff', '<none>', None)
+    st = State({k: (v if isinstance(v, tuple) else C(v)) for k, v in env.items()})
+    res = set()
+    try:
+        for v, s in it.ev(expr, st, 0):
+            res.add(truth(v))
+    except Budget:
+        return None
+    if res == {True}:
+        return True
+    if res == {False}:
+        return False
+    return None
